@@ -88,6 +88,72 @@ def run_reply(case, data, extra_cfg=None, exc=(True, True, True)):
     return verdict.replace('other:', '')
 
 
+def scramble(obj, depth=0, seen=None):
+    """edit everything that can be edited in what a call handed back: lists and dicts emptied and refilled with junk, flags flipped, numbers changed,
+    nested objects likewise (a caller may do all of this to its own result)"""
+    seen = seen if seen is not None else set()
+    if id(obj) in seen or depth > 4:
+        return
+    seen.add(id(obj))
+    if isinstance(obj, list):
+        for x in list(obj):
+            scramble(x, depth + 1, seen)
+        obj.clear()
+        obj.append('junk')
+        return
+    if isinstance(obj, dict):
+        for x in list(obj.values()):
+            scramble(x, depth + 1, seen)
+        obj.clear()
+        obj['junk'] = 1
+        return
+    if isinstance(obj, bytearray):
+        obj[:] = b'\xEE' * (len(obj) + 1)
+        return
+    if isinstance(obj, (bytes, str, int, float, bool, type(None), type)) or not hasattr(obj, '__dict__'):
+        return
+    for k_, v_ in list(vars(obj).items()):
+        if isinstance(v_, bool):
+            try:
+                setattr(obj, k_, not v_)
+            except Exception:  # noqa
+                pass
+        elif isinstance(v_, int):
+            try:
+                setattr(obj, k_, v_ + 1)
+            except Exception:  # noqa
+                pass
+        else:
+            scramble(v_, depth + 1, seen)
+
+
+def run_reply_again(case, data, same_client):
+    """the reply is decoded, the caller edits what it was given, and the same reply is decoded again - by the same client or by a new one: the second
+    result must be what the first one was (nothing the library hands out may be shared with a later result)"""
+    extra = dict(case.config)
+    std = extra.pop('standard_version', 2020)
+    cfg = cl.Cfg(rt=50, p2=20, p2s=20, std=std)
+    client, conn = cl.make_client(cfg, extra=dict(extra))
+    conn.script = [(1, bytes([case.rid]) + data)]
+    how, verdict, flags, payload, exc_, r = cl.observe_outer(conn, lambda: case.invoke(client))
+    if not (how == 'ret' and verdict == 'ok'):
+        return None
+    scramble(r if not isinstance(r, (bytes, str, int)) else None)
+    sd = getattr(r, 'service_data', None)
+    if sd is not None:
+        scramble(sd)
+    if not same_client:
+        client, conn = cl.make_client(cfg, extra=dict(extra))
+    conn.script = [(0, bytes([case.rid]) + data)]      # at once: an adopted server P2 of 0 is a legal state of the same client
+    how, verdict, flags, payload, exc_, r2 = cl.observe_outer(conn, lambda: case.invoke(client))
+    if how == 'ret' and verdict == 'ok':
+        try:
+            return 'ok ' + case.dump(r2)
+        except Exception as e:  # noqa
+            return 'dump-failed:' + type(e).__name__
+    return verdict.replace('other:', '')
+
+
 # ------------------------------------------------------------------------------------------------------------------
 # generators
 # ------------------------------------------------------------------------------------------------------------------
